@@ -275,6 +275,12 @@ func assignable(pkg *Package, v types.Type, t *types.Named, pv *internal.Elem) b
 
 func ComparableTo(pkg *Package, varg, targ *Element) bool {
 	V, T := varg.Type, targ.Type
+	if _, ok := V.(*types.Tuple); ok { // a multi-value call is not an operand
+		return false
+	}
+	if _, ok := T.(*types.Tuple); ok {
+		return false
+	}
 	if v, ok := V.(*types.Basic); ok {
 		if (v.Info() & types.IsUntyped) != 0 {
 			return untypedComparable(pkg, v, varg, T)
